@@ -254,6 +254,11 @@ class Oracle(simcheck.BaseOracle):
             return
         before, pend_before, sent_before = self.snap[1], self.snap[2], self.snap[3]
         if result == "True":
+            if a[0] == "place" and (before["in_blotter"] or (before["status"] is not None and before["status"].name == "EXECUTION_COMPLETE")):
+                # an order that has been placed before is not in a state that permits a placement, forced or not: force skips the
+                # controls "but nothing else"
+                self.add("placed-order-placed-again", "place%s of order %d, %s, was accepted" % (
+                    " (forced)" if a[3] else "", idx_of(order), "already in the blotter" if before["in_blotter"] else "complete"))
             version = a[2] if a[0] == "place" else (a[3] if a[0] == "replace" else None)
             self.accepted.append((a[0].upper(), order, version))
             return
@@ -316,6 +321,10 @@ class Oracle(simcheck.BaseOracle):
         if self.batches:
             t.add("batched-transaction")
         return t or {"run"}
+
+
+def idx_of(order):
+    return getattr(order, "_vidx", -1)
 
 
 def make_oracle(sc):
